@@ -46,6 +46,23 @@ Fixpoint global_used (p : prog) (sd gl : stream) (i j : nat) : nat :=
   | Draw SGlobal k => S (global_used (k (gl j)) sd gl i (S j))
   end.
 
+(* Several calls on one seeded object: the second call continues where the first left the streams.  [seq p q] = p, then q. *)
+Fixpoint seq (p q : prog) : prog :=
+  match p with
+  | Ret => q
+  | Emit v p' => Emit v (seq p' q)
+  | Draw s k => Draw s (fun x => seq (k x) q)
+  end.
+
+(* number of values of the seeded stream a run consumes *)
+Fixpoint seeded_used (p : prog) (sd gl : stream) (i j : nat) : nat :=
+  match p with
+  | Ret => 0
+  | Emit _ p' => seeded_used p' sd gl i j
+  | Draw SSeeded k => S (seeded_used (k (sd i)) sd gl (S i) j)
+  | Draw SGlobal k => seeded_used (k (gl j)) sd gl i (S j)
+  end.
+
 Fixpoint no_global (p : prog) : Prop :=
   match p with
   | Ret => True
@@ -57,6 +74,9 @@ Fixpoint no_global (p : prog) : Prop :=
 (* ------------------------------------------------------------------ (2) configuration classes (the property's quantifier) *)
 Inductive search_t := CBO | RandomSearch | RegEvo.
 Inductive acq_t := UCB | EI | PI | MES | GPHedge.
+(* what the caller passes as random_state: a Python int, a numpy integer (np.int64(42): an integer as well), a RandomState object,
+   anything else (None, a numpy Generator, ...) *)
+Inductive seed_t := SeedPyInt | SeedNpInt | SeedRandomState | SeedOther.
 
 Record cfg := {
   c_search : search_t;
@@ -68,10 +88,12 @@ Record cfg := {
   c_cond : bool;         (* conditional / forbidden space (ConfigSpace sampling) *)
   c_moo : bool;          (* multi-objective *)
   c_transfer : bool;     (* fit_generative_model was called (model_sdv set): OUTSIDE the property's quantifier *)
-  c_int_seed : bool      (* random_state is an int: the property's hypothesis *)
+  c_seed : seed_t        (* the property's hypothesis: an integer random_state (SeedPyInt or SeedNpInt) *)
 }.
 
-Definition in_quantifier (c : cfg) : bool := c_int_seed c && negb (c_transfer c).
+Definition int_seed (c : cfg) : bool := match c_seed c with SeedPyInt | SeedNpInt => true | _ => false end.
+Definition np_seed (c : cfg) : bool := match c_seed c with SeedNpInt => true | _ => false end.
+Definition in_quantifier (c : cfg) : bool := int_seed c && negb (c_transfer c).
 Definition is_mes (c : cfg) : bool := match c_search c, c_acq c with CBO, MES => true | _, _ => false end.
 Definition is_regevo (c : cfg) : bool := match c_search c with RegEvo => true | _ => false end.
 
@@ -87,7 +109,7 @@ Definition O_Any := 0.  Definition O_CBO := 1.  Definition O_Random := 2.  Defin
 
 (* special sites of the reachability table (assigned by Keys.v from (file, function, callee, guard)); 0 = no entry *)
 Definition S_None := 0.
-Definition S_FreshSearch := 1.   (* Search.__init__, else-branch: np.random.RandomState()   - needs random_state not an int *)
+Definition S_FreshSearch := 1.   (* Search.__init__, else-branch: np.random.RandomState()   - needs a random_state the seeded test rejects *)
 Definition S_FreshMoo := 2.      (* MoScalarFunction.__init__, else-branch                   - Optimizer always passes self.rng *)
 Definition S_SampleChoice := 3.  (* Optimizer._sample: np.random.choice under `if self._sample_max_size > 0 and ...` *)
 Definition S_MesRvs := 4.        (* gaussian_mes: scipy norm.rvs without random_state        - needs acq_func MES / MESd *)
@@ -101,7 +123,11 @@ Definition S_RegevoSetOrder := 7. (* RegularizedEvolution._ask: list(space.get_a
 Record site := { s_owner : Z; s_key : Z; s_cls : Z }.
 
 (* facts about the source the table rests on (computed by Keys.v from the generated facts) *)
-Record world := { w_sample_possible : bool   (* CBO hands sample_max_size to the Optimizer, or its default is > 0 *) }.
+Record world := {
+  w_sample_possible : bool;  (* CBO hands sample_max_size to the Optimizer, or its default is > 0 *)
+  w_npint_seeded : bool      (* the test guarding RandomState(random_state) in Search.__init__ accepts numpy integers
+                                (isinstance(.., numbers.Integral)); `type(random_state) is int` does not: F87 *)
+}.
 
 Definition owner_ok (c : cfg) (o : Z) : bool :=
   if o =? O_Any then true
@@ -112,7 +138,8 @@ Definition owner_ok (c : cfg) (o : Z) : bool :=
        end.
 
 Definition key_ok (w : world) (c : cfg) (k : Z) : bool :=
-  if k =? S_FreshSearch then negb (c_int_seed c)
+  if k =? S_FreshSearch then
+    match c_seed c with SeedPyInt => false | SeedNpInt => negb (w_npint_seeded w) | SeedRandomState => false | SeedOther => true end
   else if k =? S_FreshMoo then false
   else if k =? S_SampleChoice then w_sample_possible w
   else if k =? S_MesRvs then is_mes c
@@ -154,6 +181,7 @@ Definition site_eqb (a b : site) : bool := (s_owner a =? s_owner b) && (s_key a 
 Definition site_in (s : site) (l : list site) : bool := existsb (site_eqb s) l.
 (* the two defect sites of the pinned tree (regression witnesses; line numbers deliberately not part of a site's identity) *)
 Definition prefix_mes_site : site := {| s_owner := O_CBO; s_key := S_MesRvs; s_cls := K_Global |}.          (* F09 *)
+Definition fresh_search_site : site := {| s_owner := O_Any; s_key := S_FreshSearch; s_cls := K_CtorFresh |}.  (* F87: reached by numpy-integer seeds *)
 
 (* ---- environment reads *)
 Definition E_SetOrder := 0. Definition E_Hash := 1. Definition E_Id := 2. Definition E_Listing := 3. Definition E_Clock := 4.
